@@ -44,7 +44,7 @@ func init() {
 
 // inverseConv finds the instantiation that converts D back to S.
 func inverseConv(cv *dyn.ConvOp) *dyn.ConvOp {
-	for _, o := range dyn.Convs {
+	for _, o := range dyn.AllConvs() {
 		if o.S == cv.D && o.D == cv.S {
 			return o
 		}
@@ -73,7 +73,9 @@ func runFixed(c *core.Ctx, accuracy bool) {
 		chunkNo := 0
 		widening := dt.Bits > st.Bits
 		if accuracy && widening {
-			back = newScanner(inverseConv(cv))
+			if inv := inverseConv(cv); inv != nil {
+				back = newScanner(inv)
+			}
 		}
 		d := st.Bits - dt.Bits
 		var prevSrc, prevDst int64
@@ -161,7 +163,7 @@ func runFixed(c *core.Ctx, accuracy bool) {
 							c.Violate(name+"|same-depth", caseID, fmt.Sprintf("amplitude %d became %d at equal depth", sa, da), det())
 						}
 					default:
-						if rt[i] != raw {
+						if rt != nil && rt[i] != raw {
 							viol++
 							c.Violate(name+"|roundtrip", caseID, fmt.Sprintf("code with amplitude %d widened to amplitude %d and narrowed back with %s gives amplitude %d", sa, da, back.cv.Name(), amp(st, rt[i])), det())
 						}
